@@ -63,7 +63,8 @@ class Endpoint(object):
             idle_time=cfg.get('idle', 0), segment_size_mru=cfg.get('seg_mru', 10485760),
             segment_size_tx_initial=cfg.get('seg_init', 104857),
             enable_test=set(['private_extensions']) if cfg.get('priv_ext') else set(),
-            modulate_target_ack_time=cfg.get('modulate')), sock=self.sock)
+            modulate_target_ack_time=cfg.get('modulate'), **({'require_tls': cfg['require_tls']} if 'require_tls' in cfg else {})),
+                  sock=self.sock)
         if passive:
             kw['fromaddr'] = ('192.0.2.1', 40000)
         else:
